@@ -67,6 +67,35 @@ class Pairs:
         return {"canon": exp if not viols else ["bad", hist], "viols": viols, "label": "violation" if viols else "pair-agrees"}
 
 
+XROOTS = [{"k": 0x1111, "chain": "aa" * 32}, {"k": 0x1111, "chain": "bb" * 32}, {"k": 0x2222, "chain": "aa" * 32},
+          {"k": 0x1111, "chain": "aa" * 32, "testnet": True}, {"k": 0x1111, "chain": "aa" * 32, "depth": 2, "index": 5, "pfp": "01020304"}]
+
+
+class CrossRootHistories:
+    """public single-step derivations on DIFFERENT nodes that share a public key or a chain code, in one process; each
+    answer must be the reference child of its own parent. canon = the history (module-level caches are unobservable)."""
+
+    def ops(self, hist):
+        return [[r, i] for r in range(len(XROOTS)) for i in (0, 1)]
+
+    def run(self, hist):
+        out = None
+        for r, i in hist:
+            out = (r, i, hdscen.impl({"op": "ckd", "root": pub_root(XROOTS[r]), "i": i}),
+                   hdscen.impl({"op": "ckd", "root": XROOTS[r], "i": i}))
+        if not hist:
+            return {"canon": hist, "viols": [], "label": "init"}
+        r, i, a, b = out
+        e = hdscen.ref({"op": "ckd", "root": pub_root(XROOTS[r]), "i": i})
+        eb = hdscen.ref({"op": "ckd", "root": XROOTS[r], "i": i})
+        viols = []
+        if a != e:
+            viols.append(V(P + ":PubKeyNode.ckd:history:wrong-node", "after %r in the same process, public ckd(%d) on root #%d" % (hist[:-1], i, r), a[1], e[1]))
+        if b != eb:
+            viols.append(V(P + ":PrvKeyNode.ckd:history:wrong-node", "after %r in the same process, private ckd(%d) on root #%d" % (hist[:-1], i, r), b[1], eb[1]))
+        return {"canon": hist, "viols": viols, "label": "violation" if viols else "child-ok"}
+
+
 def chk_corner(root, i, il_spec):
     rr = hdscen.ref_priv_shadow(root)
     data = secp.sec(rr.K) + i.to_bytes(4, "big")
@@ -125,11 +154,17 @@ def chk_refusal(root, form, arg):
 
 
 def execute(case):
-    k = case["k"]
+    k = case.get("k")
     if k == "corner":
         o, nt, vs = chk_corner(case["root"], case["i"], tuple(case["il"]))
     elif k == "refuse":
         o, nt, vs = chk_refusal(case["root"], case["form"], case["arg"])
+    elif "hist" in case and "model" not in case and k is None:
+        from ..core import isolated
+        r = isolated(CrossRootHistories().run, case["hist"])
+        o, nt, vs = r["label"], True, r["viols"]
+        for v in vs:
+            v["case"] = case
     elif k == "pairs":
         r = Pairs(case["root"], case["alphabet"]).run(case["hist"])
         o, nt, vs = r["label"], True, r["viols"]
@@ -141,7 +176,7 @@ def execute(case):
 
 
 def replay(case):
-    if "hist" in case and "k" not in case:
+    if "hist" in case and "k" not in case and "model" in case:
         case = dict(case["model"], k="pairs", hist=case["hist"])
     return execute(case)["v"]
 
@@ -166,11 +201,12 @@ def run(ctx):
         bfs(ctx, "pair-tree-root%d" % n, Pairs(root, alpha), depth, isolate=False)
     for v in ctx.violations:
         c = v.get("case")
-        if isinstance(c, dict) and "hist" in c and "k" not in c:
+        if isinstance(c, dict) and "hist" in c and "k" not in c and c.get("layer", "").startswith("pair-tree-root"):
             c["model"] = {"root": roots[int(c["layer"].replace("pair-tree-root", ""))], "alphabet": alpha}
     for smp in ctx.samples:
-        if "history" in smp:
+        if "history" in smp and smp["layer"].startswith("pair-tree-root"):
             smp["model"] = {"root": roots[int(smp["layer"].replace("pair-tree-root", ""))], "alphabet": alpha}
+    bfs(ctx, "cross-root-histories", CrossRootHistories(), 3 if ctx.thorough else 2)
     corners = [("il", 1), ("il", 2), ("kpar", 0), ("il", N - 1), ("child", N - 1), ("child", 1), ("il", 2**255), ("child", 2), ("il", N - 2)]
     cases = [{"k": "corner", "root": root, "i": i, "il": list(c)} for root in roots for i in (0, H - 1, alpha[3]) for c in corners]
     ctx.product("prf-corners", cases, execute)
